@@ -307,6 +307,44 @@ def g8_equal_ranks(rng, big=False):
     return make_valid(s, rng)
 
 
+def g8b_quota_creep(rng, big=False):
+    """
+    equal-rank ballots whose split is inexact at first (3 or 6 ways) and becomes exact after a weak member of the group is
+    excluded, next to a candidate holding exactly ballots/(seats+1) first preferences and another with a large surplus:
+    the Meek quota, computed from truncated votes, creeps up by one unit in the last place in a later round
+    """
+    ns = rng.randint(1, 4)
+    nc = rng.randint(max(4, ns + 2), 8)
+    cands = list(range(1, nc + 1))
+    order = rng.sample(cands, nc)
+    A, B = order[0], order[1]
+    weak = order[2]
+    others = order[3:]
+    q = rng.randint(3, 12)
+    total = q * (ns + 1)
+    lines = [(q, [[A]] + [[c] for c in rng.sample([x for x in cands if x != A], rng.randint(0, 2))])]
+    left = total - q
+    grp = [weak] + rng.sample(others, min(len(others), rng.choice([2, 2, 5])))
+    neq = rng.randint(1, 3)
+    lines.append((neq, [grp] + [[c] for c in rng.sample([x for x in cands if x not in grp], rng.randint(0, 2))]))
+    left -= neq
+    nb = max(1, min(left, q + rng.randint(1, q)))
+    lines.append((nb, [[B]] + [[c] for c in rng.sample([x for x in cands if x != B], rng.randint(1, 3))]))
+    left -= nb
+    if rng.random() < 0.5 and left > 0:
+        lines.append((1, [[weak], [B]]))
+        left -= 1
+    while left > 0:
+        m = rng.randint(1, min(left, 4))
+        r = rng.sample(cands, rng.randint(1, 3))
+        lines.append((m, [[c] for c in r]))
+        left -= m
+    s = base(nc, ns, lines, rng)
+    s['eq'] = True
+    s['family'] = 'G8b'
+    return make_valid(s, rng)
+
+
 def g10_sure_losers(rng, big=False):
     "geometric tally ladders with gaps just above / below (sum of lower + surplus)"
     nc = rng.randint(4, 10 if big else 7)
@@ -377,7 +415,7 @@ def g9_real_files(rng, big=False, repo=None):
 
 FAMILIES = {
     'G1': g1_uniform, 'G2': g2_ties, 'G3': g3_quota_boundary, 'G4': g4_chains, 'G5': g5_coalition,
-    'G6': g6_degenerate, 'G7': g7_withdrawn_undeclared, 'G8': g8_equal_ranks, 'G9': g9_real_files,
+    'G6': g6_degenerate, 'G7': g7_withdrawn_undeclared, 'G8': g8_equal_ranks, 'G8b': g8b_quota_creep, 'G9': g9_real_files,
     'G10': g10_sure_losers,
 }
 
